@@ -117,7 +117,22 @@ def build_and_run(case, transform=None):
             attrs['mapping_weights'] = dict(part['given'])
         mol.add_node(i * 3 + 7, **attrs)
     weight = {'ffvar': None, 'none': None, 'disabled': False, 'explicit': 'mass'}[case['mode']]
-    DoAverageBead(ignore_missing_graphs=True, weight=weight).run_molecule(mol)
+    proc = DoAverageBead(ignore_missing_graphs=True, weight=weight)
+    if case.get('primed', len(case['atoms']) % 2 == 0):
+        # one processor object handles molecules of several force fields in a row (as run_system does): before the molecule
+        # under test it sees a molecule whose force field configures the centre weight differently
+        ff0 = ForceField(name='verif_c09_primer')
+        if case['mode'] == 'none':
+            ff0.variables['center_weight'] = 'mass'
+        elif case['mode'] == 'ffvar':
+            ff0.variables['center_weight'] = 'primer_weight'
+        m0 = Molecule(force_field=ff0)
+        g0 = nx.Graph()
+        g0.add_node(0, atomname='Q', mass=12.0, primer_weight=3.0, position=np.zeros(3))
+        g0.add_node(1, atomname='R', mass=1.0, primer_weight=1.0, position=np.ones(3))
+        m0.add_node(0, atomname='P', resid=1, resname='X', graph=g0)
+        proc.run_molecule(m0)
+    proc.run_molecule(mol)
     return [mol.nodes[i * 3 + 7].get('position') for i in range(len(case['parts']))]
 
 
